@@ -94,7 +94,9 @@ def concretise(chk, sc, cfgseed, ndims, style=None):
     ap = build_ap(sc, ndims)
     if style.get("ishift"):
         # an index space that does not start at 0 (validated by the default checks, which never turn indices into coordinates)
-        gamma.shift_indices(ap, [[-8, -3, -16], [-4, 0, -1], [5, -2, 0]][cfgseed % 3])
+        # (also FAR from 0: four to six digits per index, as on the finest level of a production run -- the FAB header and the
+        # level header's box entries are then well over a hundred characters long)
+        gamma.shift_indices(ap, [[-8, -3, -16], [-4, 0, -1], [5, -2, 0], [1000, 20000, 300000], [-100000, 4096, 65536]][cfgseed % 5])
     d = os.path.join(chk.tmp_reuse(), "p")
     os.makedirs(os.path.dirname(d))
     reg = gamma.write_plotfile(d, ap, cfg_)
